@@ -15,7 +15,7 @@ from simkit.tape import digest_of
 from simkit import vclock
 
 ID = "C13"
-RUNS = {"quick": 70_000, "thorough": 1_000_000}
+RUNS = {"quick": 70_000, "thorough": 800_000}
 MAX_BATCH = 800
 SIM_TIME_UNIT = "virtual milliseconds (1 per scheduler step)"
 RULE = (
@@ -108,14 +108,14 @@ class Worker:
             raise InjectedError(f"runner {self.idx} crashed at the end")
 
 
-def gen(tape):
+def gen(tape, big=False):
     stream_suite = tape.chance("config", 1, 2, "stream-suite")
-    n = 1 + tape.draw("program", 4, "nworkers")
+    n = 1 + tape.draw("program", 6 if big else 4, "nworkers")
     workers = []
     for w in range(n):
         kinds = ("list", "list", "raw") if stream_suite else ("list",)
         kind = tape.choice("program", kinds, "worker-kind")
-        nitems = tape.draw("program", 4, "nitems")
+        nitems = tape.draw("program", 6 if big else 4, "nitems")
         items = []
         for i in range(nitems):
             if kind == "raw":
@@ -172,7 +172,7 @@ class StopRecorder:
 
 def run_one(tape, opts):
     out = Outcome()
-    stream_suite, wspecs, faults = gen(tape)
+    stream_suite, wspecs, faults = gen(tape, big=opts.get("tier") == "thorough")
     traced = tape.chance("config", 1, 4 if opts.get("tier") == "thorough" else 12, "traced")   # line-level pre-emption
     failfast = (not stream_suite) and tape.chance("config", 1, 4, "caller-result-failfast")
     nitems = sum(len(w["items"]) + 2 for w in wspecs)
